@@ -43,6 +43,25 @@ NODE_FIELDS = ("virtio_features", "acked_virtio_features", "protocol_features", 
 # parser: rsparse.Parser plus `for PAT in EXPR { .. }` (nested blocks parsed by the same class)
 
 
+def normalize_tail_if(stmts):
+    """`… ; if c { A } else { B }` as the value of a function body is the same program as `… ; if c { return A; } B`
+    (one level, no `else if`): render both spellings alike"""
+    if not stmts:
+        return stmts
+    last = stmts[-1]
+    if last.op == "tail" and last.args[0] is not None and last.args[0].op == "if":
+        c, th, el = last.args[0].args
+        def is_err(n):
+            return n is not None and n.op == "call" and n.args[0].op == "path" and n.args[0].args[-1] in ("error_code", "Err")
+        # only the early-error shape: `if c { <error> } else { … }`
+        if el is not None and el.op == "block" and th.op == "block" and len(th.args) == 1 and th.args[0].op == "tail" \
+                and is_err(th.args[0].args[0]):
+            th2 = Node("block", *(list(th.args[:-1]) + [Node("return", th.args[-1].args[0])]))
+            return list(stmts[:-1]) + [Node("stmt", Node("if", c, th2, None))] + normalize_tail_if(list(el.args))
+    return stmts
+
+
+
 class FParser(Parser):
     def sub(self, toks):
         return FParser(toks, self.where)
@@ -784,7 +803,7 @@ class Method:
         self.params = split_params(params, where)
         self.types = dict(self.params)
         self.rows = []
-        self.stmts = FParser(body, where).block()
+        self.stmts = normalize_tail_if(FParser(body, where).block())
 
     def fail(self, msg):
         raise Untranslatable(f"{self.where}: {msg}")
